@@ -42,7 +42,8 @@ def run_variant(v, jobs):
         env = dict(os.environ, VERIF_REPO=tmp, VERIF_CACHE=os.path.join(tmp, "cache"),
                    VERIF_EVIDENCE_DIR=os.path.join(tmp, "evidence"), VERIF_JOBS=str(jobs),
                    PYTHONDONTWRITEBYTECODE="1")
-        pr = subprocess.run([os.path.join(VERIF, "vcheck"), v["pid"], "--tier", "quick"], env=env,
+        env["VERIF_NO_SELFTEST"] = "1"
+        pr = subprocess.run([os.path.join(VERIF, "vcheck"), v["pid"], "--tier", v.get("tier", "quick")], env=env,
                             capture_output=True, text=True, timeout=1800)
         out = pr.stdout + pr.stderr
         viol = [l for l in out.splitlines() if l.startswith("VIOLATION ")]
